@@ -43,7 +43,9 @@ class RecHandler(_BASE):
         self.errs = []           # every reported error of the run
 
     def _err(self, lvl, code, msg, val, attached):
-        self.errs.append({'lvl': lvl, 'code': str(code), 'msg': msg, 'val': val if isinstance(val, str) else '', 'att': attached})
+        st = getattr(self, 'cur_st_node', None)
+        self.errs.append({'lvl': lvl, 'code': str(code), 'msg': msg, 'val': val if isinstance(val, str) else '', 'att': attached,
+                          'open': bool(st is not None and not st.is_closed())})
         self.calls.append({'op': lvl + '_error', 'code': str(code), 'u': len(self.errs)})
 
     def add_isa_loop(self, seg_data, src):
@@ -368,7 +370,7 @@ def _invoke(text, with_html):
 
     def cb(seg, src, node, valid):
         h = RecHandler.last
-        per_seg.append({'line': src.get_cur_line(), 'calls': h.calls, 'values': _values_of(seg), 'nerr': len(h.errs)})
+        per_seg.append({'line': src.get_cur_line(), 'calls': h.calls, 'values': _values_of(seg), 'nerr': len(h.errs), 'sid': seg.get_seg_id()})
         h.calls = []
 
     fd_html = io.StringIO() if with_html else None
@@ -399,8 +401,12 @@ def execute(rid, label, text):
     calls = []
     lo = 0
     for k, ps in enumerate(per_seg):
+        body = (ps.get('sid') or '') not in ('ISA', 'GS', 'ST', 'SE', 'GE', 'IEA')
         for e in h.errs[lo:ps['nerr']]:
-            errs.append({'s': k + 1, 'lvl': e['lvl'], 'code': e['code'], 'msg': vlib.codes(e['msg']), 'att': e['att'],
+            # a segment or element error reported while a body segment is handled inside a transaction set the handler has open
+            # is claimed wherever the handler chose to keep it
+            errs.append({'s': k + 1, 'lvl': e['lvl'], 'code': e['code'], 'msg': vlib.codes(e['msg']),
+                         'att': bool(e['att'] or (body and e.get('open') and e['lvl'] in ('seg', 'ele'))),
                          'taint': taint_positions(e['msg'], ps['values'] | ({e['val']} if e['val'] else set()))})
         lo = ps['nerr']
         calls.append(ps['calls'])
